@@ -1275,7 +1275,7 @@ func (e *Exec) execRegion(order []*ssa.BasicBlock, incoming map[*ssa.BasicBlock]
 				continue
 			case *ssa.If:
 				cond := e.intToBool(e.val(s, x.Cond)[0])
-				if e == e.root && e.spec != nil && e.spec.SplitPaths && unrolling == nil && e.root.nlanes < 48 && !endsInReturn(b.Succs[0]) && !endsInReturn(b.Succs[1]) {
+				if (e == e.root || e.rootScoped) && e.spec != nil && e.spec.SplitPaths && unrolling == nil && e.root.nlanes < 48 && !endsInReturn(b.Succs[0]) && !endsInReturn(b.Succs[1]) {
 					// path-wise execution: the two sides are never merged again
 					base := s.lane
 					s.lane = fmt.Sprintf("%s/b%dt", base, b.Index)
